@@ -16,9 +16,9 @@ DEST = {  # where the demonstration goes in the tree and how it is run
 }
 DEFAULT = ("vhost/tests/{demo}", "cargo test -p vhost --features vhost-user-frontend,vhost-user-backend --offline --test {stem}")
 results = json.load(open("/verif/seeded/results.json")) if os.path.exists("/verif/seeded/results.json") else {}
-for wt in sorted(glob.glob("/tmp/wt_c??") + glob.glob("/tmp/wt3_c??")):
+for wt in sorted(glob.glob("/tmp/wt_c??") + glob.glob("/tmp/wt3_c??") + glob.glob("/tmp/wt4_c??")):
     prop = "C" + wt[-2:]
-    rnd = "3" if "/wt3_" in wt else ""
+    rnd = "3" if "/wt3_" in wt else ("4" if "/wt4_" in wt else "")
     for sub in ("a", "b"):
         src = f"{wt}/SEED/{sub}"
         if not os.path.isdir(src): continue
@@ -34,7 +34,7 @@ for wt in sorted(glob.glob("/tmp/wt_c??") + glob.glob("/tmp/wt3_c??")):
         demos = [f for f in files if f.endswith(".rs")]
         demo = demos[0] if demos else ""
         d, c = DEST.get(prop, DEFAULT)
-        mcmd = re.search(r"cargo test -p ([a-z-]+) [^`\n]*--test (\w+)", notes)
+        mcmd = re.search(r"cargo test -p ([a-z-]+) [^`\n]*--(?:test|lib) (\w+)", notes)
         if mcmd and rnd:
             d, c = mcmd.group(1) + "/tests/{demo}", mcmd.group(0).replace("<demo>", "{stem}").replace("<name>", "{stem}")
         meta = {
